@@ -272,6 +272,12 @@ func (fv *FV) callStatic(st *State, ins ssa.CallInstruction, v ssa.Value, callee
 			}
 		}
 	}
+	// gqlparser's XList.ForName(name): first element with that Name, or nil
+	if callee.Name() == "ForName" && strings.Contains(name, "gqlparser") && len(args) == 2 {
+		if fv.modelForName(st, ins, v, callee, args) {
+			return
+		}
+	}
 	// library / special models
 	if m, ok := libModels[name]; ok {
 		if m(fv, st, ins, v, callee, args) {
